@@ -81,6 +81,13 @@ def gen_cases(ctx, lib, n, allowed_classes):
     grid = W.grid_population(lib.schema)
     cases.append(Case(lib, grid, Layout(0, ws=False), True, "grid:canonical"))
     cases.append(Case(lib, grid, Layout(rng.randrange(1 << 30), comment_classes=tuple(GOOD_CLASSES)), True, "grid:layout"))
+    # every enumeration item (item set closed under prefix / extension, both declaration orders) and every leaf of the
+    # selects nested 1..4 deep (and of the renamed selects), as attribute and as aggregate element
+    if "dp_e" in lib.schema.by_name:
+        deep = W.deep_population(rng, lib.schema)
+        cases.append(Case(lib, deep, Layout(0, ws=False), False, "deep:canonical"))
+        cases.append(Case(lib, deep, Layout(rng.randrange(1 << 30)), False, "deep:whitespace"))
+        cases.append(Case(lib, W.deep_population(rng, lib.schema, renamed=True), Layout(0, ws=False), False, "deep:renamed-selects"))
     for k in range(n):
         pop = widen_strings(rng, lib.schema, W.gen_population(rng, lib.schema, rng.randint(3, 10)))
         mode = k % 6
@@ -201,6 +208,17 @@ def blame_parameter(ctx, b, lib, pop, layout):
                             cands.append((x[1], ("aggr", v[1][:ei] + v[1][ei + 1:])))
                 elif v[0] == "typed" and v[2][0] == "tok":
                     cands.append((v[2][1], ("typed", v[1], ("tok", "1.5" if v[1] == "LEN_T" else "1"))))
+                if a.kind in W.DEEP_KINDS and v[0] == "typed":
+                    # a typed value of a (nested) select: does the file read once the value is a plain reference / absent?
+                    t0 = next((x.id for x in pop if x.parts[0][0] == sch.targets[0].upper()), None)
+                    if a.kind in ("SEL_S3", "SEL_S4") and t0 is not None:
+                        cands.append((v[1] + "(...)@" + a.kind, ("ref", t0)))
+                    elif a.optional:
+                        cands.append((v[1] + "(...)@" + a.kind, ("null",)))
+                if a.kind in W.DEEP_KINDS and v[0] == "aggr":
+                    for ei, x in enumerate(v[1]):
+                        if x[0] == "typed":
+                            cands.append((x[1] + "(...)@" + a.kind, ("aggr", v[1][:ei] + v[1][ei + 1:])))
                 for tok, repl in cands:
                     c = inst.copy()
                     c.parts[pi][1][ai] = repl
@@ -242,6 +260,8 @@ def minimise(ctx, b, case, msg):
                 k2, tok, pop2, msg2 = found
                 text = canon.render(sch.name, pop2)
                 return f"data:{k2}:{classify(tok)}", msg2, {"schema": lib.express, "file": text, "layout": canon.describe()}
+            # several parameters break the file independently: name the entity of the smallest failing instance
+            kind = "entity=" + "&".join(n for n, _ in inst.parts)
         shape = ""
         mm = re.search(r"parameter \d+: (.*) became", best_msg)
         if mm and mm.group(1).startswith("("):
